@@ -144,6 +144,48 @@ func runC15(c *Ctx) {
 		c.Check(w.Expr(r.Results[0]) == decExpr, "R2.gate", "Unmarshal|returns the decoded attributes", w.Pos(r.Pos()), "the value json decoded into", "the JSON arm returns something other than the decoded and checked value: "+w.Short(r.Results[0]))
 	}
 	c.Floor("R2.gate", n, 1, "successful return of the JSON arm")
+	// ... and it is what the text said: a step run on the decoded value (populate) may only put an empty part where the
+	// text had none - a store into a field of the decoded attributes needs the must-fact that the field is nil and stores
+	// a fresh value; anything else (a field derived from another one, a default) changes what comes back
+	{
+		nSt := 0
+		for _, call := range callsIn(unmarshal) {
+			cv, ok := call.(*ssa.Call)
+			if !ok {
+				continue
+			}
+			g := cv.Call.StaticCallee()
+			if g == nil || !w.InRepo(g) || len(g.Blocks) == 0 || len(cv.Call.Args) == 0 || w.Expr(cv.Call.Args[0]) != decExpr || recvNamed(g) == nil {
+				continue
+			}
+			gf := w.Facts(g)
+			for _, b := range g.Blocks {
+				for _, ins := range b.Instrs {
+					st, isSt := ins.(*ssa.Store)
+					if !isSt {
+						continue
+					}
+					fa, isFA := st.Addr.(*ssa.FieldAddr)
+					if !isFA || fa.X != ssa.Value(g.Params[0]) {
+						continue
+					}
+					nSt++
+					fld := fieldName(fa.X.Type(), fa.Field)
+					wasNil := gf.Any(b, func(l Lit) bool {
+						y, isNil, ok := nilTest(l)
+						return ok && isNil && w.ExprIn(g, y) == "p0."+fld
+					})
+					fresh := false
+					switch strip(st.Val).(type) {
+					case *ssa.Alloc, *ssa.MakeMap, *ssa.MakeSlice:
+						fresh = true
+					}
+					c.Check(wasNil && fresh, "R2.gate", "Unmarshal|"+shortFn(g)+" only fills in the absent "+fld, w.Pos(st.Pos()), "stores a fresh empty value under the must-fact "+fld+" == nil", "after decoding, "+shortFn(g)+" writes the field "+fld+" of the decoded attributes (not merely an empty value where the text had none): the message that comes back is not the one that was sent")
+				}
+			}
+		}
+		c.Note("field stores of the steps run on the decoded attributes: %d", nSt)
+	}
 
 	entries := []*ssa.Function{unmarshal, legacy}
 	entries = append(entries, w.methodsOf("message", "Attributes")...)
